@@ -7,22 +7,22 @@ HERE = os.path.dirname(os.path.dirname(os.path.abspath(__file__)))
 CHECKS = {
  "C13": ("svcmon", "exploration",
          "runtime monitor: Go race detector on the real server under concurrent clients and hook delays + per-request oracle + event-log interleaving coverage",
-         "A -race -tags verif build of the server is driven by rounds of 2..16 clients released together, under three hook-delay profiles that widen the read/decode/prove/write windows; requests include equal-length valid bodies, bodies arriving in two TCP segments and valid/invalid twins with the same input hash; the rounds are repeated on the plain binary. Every response is judged by its own request's oracle (proof verifies for THIS hash; deterministic error bodies equal the response the same request gets alone) and the race log must be empty. Evidence reports client/server-side overlap and distinct interleaving signatures. Held on the schedules produced.",
+         "A -race -tags verif build of the server is driven by rounds of 2..16 clients released together, under three hook-delay profiles that widen the read/decode/prove/write windows; requests include equal-length valid bodies, bodies arriving in two TCP segments and valid/invalid twins with the same input hash; the rounds are repeated on the plain binary; causal oracles: while one client's upload is pending inside the handler the others must be answered, and after clients hung up on complete requests the next requests must be answered. Every response is judged by its own request's oracle (proof verifies for THIS hash; deterministic error bodies equal the response the same request gets alone) and the race log must be empty. Evidence reports client/server-side overlap and distinct interleaving signatures. Held on the schedules produced.",
          "Schedules are those the OS and the delay profiles produced; the race detector only sees executed accesses.",
          "DESIGN.md §C13"),
  "C14": ("svcmon", "exploration",
          "runtime monitor: start/stop cycles in a worker process and on the real CLI with requests confirmed in flight by the gauge and held by hook delays; completion/rebind/exit-status/deadlock oracles",
-         "(A) server.Run/RequestStop/AwaitStop cycles on the same two addresses in a child worker (a panic or deadlock ends only the worker and is reported with its stack): stop immediately (start delayed by hooks), after ports answer, with 1-4 requests confirmed in flight at chosen handler stages, after completion, a long hold of 8 s (35 s thorough) past the stop, rapid restarts; a server-side ordering oracle from the hook event log (no handler event after the last job finished shutting down); (B) `gnark-mbu start` + SIGINT with the same in-flight timings, incl. SIGINT repeated while the drain is in progress. Every in-flight client must get its specified response, addresses must bind immediately, exit status 0. Held on the cycles run.",
+         "(A) server.Run/RequestStop/AwaitStop cycles on the same two addresses in a child worker (a panic or deadlock ends only the worker and is reported with its stack): stop immediately (start delayed by hooks), after ports answer, with 1-4 requests confirmed in flight at chosen handler stages, after completion, a long hold of 8 s (35 s thorough) past the stop, rapid restarts; a server-side ordering oracle from the hook event log (no handler event after the last job finished shutting down); (B) `gnark-mbu start` + SIGINT with the same in-flight timings, incl. SIGINT repeated while the drain is in progress, requests that have not read their body yet, and a /metrics request in flight on the metrics listener. Every in-flight client must get its specified response, addresses must bind immediately, exit status 0. Held on the cycles run.",
          "SIGINT before the handler is installed is out of scope; watchdog >= 120 s turns into a violation only for AwaitStop/exit.",
          "DESIGN.md §C14"),
  "C09": ("svcmon", "exploration",
          "runtime monitor: hostile request history against a real server child, per-request status/code/proof oracle, liveness probe, crash-mark scan",
-         "One long PRNG history per mode on one `gnark-mbu start` instance: non-POST methods, ~16 kinds of malformed bodies incl. body-read failures produced on the wire, wrong shapes (each array +-1/empty/10^4), every invalid batch class, wrong hashes, valid batches in four number styles (also padded with MBs of whitespace). The server runs with small hook delays and six clients so that requests overlap inside the handler. Every 200 body is verified as a Groth16 proof for the request's own hash with the vk held by the monitor; after every request a probe must be answered and stderr is scanned. Held on the requests sent.",
+         "One long PRNG history per mode on one `gnark-mbu start` instance: non-POST methods, ~16 kinds of malformed bodies incl. body-read failures produced on the wire, wrong shapes (each array +-1/empty/10^4), every invalid batch class, wrong hashes, valid batches in four number styles (also padded with MBs of whitespace, and sent chunked); two uploads delivered over 33 s (130 s) stay in flight during the history; pending-upload and abandoned-client oracles as in C13. The server runs with small hook delays and six clients so that requests overlap inside the handler. Every 200 body is verified as a Groth16 proof for the request's own hash with the vk held by the monitor; after every request a probe must be answered and stderr is scanned. Held on the requests sent.",
          "Classes whose outcome the property leaves open accept either documented outcome; error messages are not compared.",
          "DESIGN.md §C09"),
  "C20": ("svcmon", "exploration",
          "runtime monitor: recorded request/scrape history checked with porcupine against a per-(method,code) counter model + conservation after quiescence",
-         "Client-boundary history of sequential and concurrent (8/16 clients) mixed requests with a scraper running throughout; porcupine checks the history (request = increment inside its interval, scrape = read) partitioned by (method, code); after quiescence the scraped totals must equal the client tally and the gauge be 0; gauge bounded by overlapping operations on every scrape; scrapes must complete while proofs are in flight; one request stays in flight for 33 s (130 s thorough); 250 (4000) bursts of 8-32 cheap concurrent requests each followed by a quiescent scrape whose gauge must read 0. Held on the histories recorded.",
+         "Client-boundary history of sequential and concurrent (8/16 clients) mixed requests with a scraper running throughout; porcupine checks the history (request = increment inside its interval, scrape = read) partitioned by (method, code); after quiescence the scraped totals must equal the client tally and the gauge be 0; gauge bounded by overlapping operations on every scrape; scrapes must complete while proofs are in flight; one request stays in flight for 33 s (130 s thorough); with six requests held inside the handler a scrape must be answered and show them; 250 (4000) bursts of 8-32 cheap concurrent requests each followed by a quiescent scrape whose gauge must read 0. Held on the histories recorded.",
          "Assumes promhttp increments before the handler chain returns and small responses are flushed afterwards (checked implicitly: otherwise porcupine would reject the unchanged tree).",
          "DESIGN.md §C20"),
  "C12": ("climon", "exploration",
@@ -32,12 +32,12 @@ CHECKS = {
          "DESIGN.md §C12"),
  "C17": ("climon", "exploration",
          "runtime monitor: extraction output (in-process repeated, fresh processes) compared byte-wise and per definition with the committed Lean model",
-         "ExtractLean(30,4) three times in one process and extract-circuit in fresh processes under several GOMAXPROCS and environments (MTB_MODE and other exported variables, locale, HOME/TMPDIR) must equal formal-verification/FormalVerification.lean (54 definitions compared individually); all SemaphoreMTB names used by the proof files must be defined; a sweep revisiting dimensions must be deterministic; CLI extraction also writes over an existing longer file. The Lean proofs are not rebuilt (toolchain absent).",
+         "every successful extraction must be a complete model and unsupported depths (32, 33, 64) must never succeed with a partial one; ExtractLean(30,4) three times in one process and extract-circuit in fresh processes under several GOMAXPROCS and environments (MTB_MODE and other exported variables, locale, HOME/TMPDIR) must equal formal-verification/FormalVerification.lean (54 definitions compared individually); all SemaphoreMTB names used by the proof files must be defined; a sweep revisiting dimensions must be deterministic; CLI extraction also writes over an existing longer file. The Lean proofs are not rebuilt (toolchain absent).",
          "Model text equality, not proof re-checking.",
          "DESIGN.md §C17"),
  "C19": ("climon", "exploration",
          "runtime monitor: real binary in fresh processes; stdout/exit-status oracle from in-monitor Groth16 verification",
-         "setup -> gen-test-params | prove -> verify on real keys files; prove on independently written documents (short roots, four number styles) with stdout required to be exactly one proof; verify on CLI proofs, re-randomised valid derivatives (short coordinates first, hashes with odd hex length), tampered/reordered proofs, wrong hashes, other-mode keys, garbage; unprovable parameters; six mode spellings (incl. absent) on six commands; missing/empty/truncated/directory keys; gen-test-params over dimensions up to the full tree; setup re-run over a path that already holds the other mode's keys. Held on the invocations made.",
+         "setup -> gen-test-params | prove -> verify on real keys files; prove on independently written documents (short roots, four number styles) with stdout required to be exactly one proof; verify on CLI proofs, re-randomised valid derivatives (short coordinates first, hashes with odd hex length), tampered/reordered/sign-flipped proofs, wrong hashes, other-mode keys, garbage; unprovable parameters; six mode spellings (incl. absent) on six commands; missing/empty/truncated/directory keys; gen-test-params over dimensions up to the full tree; setup re-run over a path that already holds the other mode's keys. Held on the invocations made.",
          "Verify oracle = gnark Verify with the vk from export-vk.",
          "DESIGN.md §C19"),
  "C03": ("circmon", "exploration",
@@ -62,12 +62,12 @@ CHECKS = {
          "DESIGN.md §C10"),
  "C11": ("provmon", "exploration",
          "runtime monitor: write/read both formats + CLI conversion, canonical digests and cross prove/verify against the original in-memory system",
-         "Real insertion/deletion systems and hundreds of small independent systems are written compressed and raw, converted by the CLI (to a fresh path and in place), written repeatedly over one shared path, read back by both readers (the file reader also through symlinks, hard links and named pipes); header, digests of pk/vk/cs, byte counts and cross prove/verify between original and reloaded system are checked. Held on the systems produced.",
+         "Real insertion/deletion systems and hundreds of small independent systems are written compressed and raw, converted by the CLI (to a fresh path and in place), written repeatedly over one shared path, read back by both readers (the file reader also through symlinks, hard links and named pipes, the stream reader also through a pipe with short reads); header, digests of pk/vk/cs, byte counts and cross prove/verify between original and reloaded system are checked. Held on the systems produced.",
          "Digest = SHA-256 of gnark's own canonical serialisation of the in-memory parts.",
          "DESIGN.md §C11"),
  "C15": ("provmon", "fault_enumeration",
          "fault enumeration at run time: every cut offset of small files, boundaries and samples of real files, CLI on truncated files",
-         "Every strict prefix (all byte offsets) of several small proving-system files in both formats, and boundary/PRNG offsets of real 60-90 MB files, are fed to UnsafeReadFrom / ReadSystemFromFile under recover() and a watchdog: outcome must be an error. The complete file is loaded through the file reader first, then its prefixes. CLI commands on six truncated files must exit non-zero within their watchdog without crash marks in their output, and start must not stay up. Exhaustive per small file; sampled for real files.",
+         "Every strict prefix (all byte offsets) of several small proving-system files in both formats, and boundary/PRNG offsets of real 60-90 MB files, are fed to UnsafeReadFrom / ReadSystemFromFile under recover() and a watchdog: outcome must be an error. The complete file is loaded through the file reader first, then its prefixes. about 20 prefixes delivered slowly through named pipes (end-of-file 12 s / 35 s after the last byte) must be rejected like the fast ones; CLI commands on six truncated files must exit non-zero within their watchdog without crash marks in their output, and start must not stay up. Exhaustive per small file; sampled for real files.",
          "Assumes truncation = strict prefix; small files share the layout of real ones.",
          "DESIGN.md §C15"),
  "C01": ("circmon", "exploration",
